@@ -9,6 +9,9 @@ require (
 	pgregory.net/rapid v1.3.0
 )
 
-require github.com/golang/glog v1.2.2 // indirect
+require (
+	github.com/golang/glog v1.2.2 // indirect
+	github.com/pkg/errors v0.9.1 // indirect
+)
 
 replace github.com/google/mtail => /repo
